@@ -157,6 +157,44 @@ static void raw_family(vt::rng& g, int count)
     }
 }
 
+template <typename T>
+static void any_family(vt::rng& g, int count)
+{
+    for (int k = 0; k != count; ++k)
+    {
+        int n = (int) g.range(2, 7);
+        std::vector<T> w((std::size_t) n, T());
+        std::vector<int> wz((std::size_t) n, 0);
+        for (int i = 0; i != n; ++i)
+            if (g.below(3) != 0) { w[(std::size_t) i] = T(g.range(1, 99)) / T(10) * (g.below(4) == 0 ? T(0.01) : T(1)); wz[(std::size_t) i] = 1; }
+        bool any = false;
+        for (int z : wz) any = any || z;
+        if (!any) { w[1] = T(0.7); wz[1] = 1; }
+        // canonical numbers: the floating-point neighbours (in T) of every cumulative boundary, computed in long double
+        long double S = 0;
+        for (T x : w) S += x;
+        std::vector<std::uint64_t> raws{0ULL, ~0ULL};
+        long double c = 0;
+        for (T x : w)
+        {
+            c += x;
+            T u = (T) (c / S);
+            T lo = u, hi = u;
+            for (int s = 0; s != 3; ++s)
+            {
+                for (T v : {lo, hi})
+                    if (v >= T() && v < T(1)) raws.push_back((std::uint64_t) std::ldexp((long double) v, 64));
+                lo = std::nextafter(lo, T(-1)); hi = std::nextafter(hi, T(2));
+            }
+        }
+        vt::script_engine e(vt::script_registry::add(raws));
+        hep::discrete_distribution<std::size_t, T> d(w.begin(), w.end());
+        std::vector<long long> idx;
+        for (std::size_t i = 0; i != raws.size(); ++i) idx.push_back((long long) d(e));
+        vt::ev("PickAny").s("T", vt::type_name<T>::get()).a("wz", wz).a("idx", idx).i("draws", (long long) e.pos()).i("n", (long long) raws.size()).emit();
+    }
+}
+
 static bool dyadic_sum(std::vector<int> const& w)
 {
     int S = 0;
@@ -203,6 +241,7 @@ int main(int argc, char** argv)
         }
     }
     raw_family(g, thorough ? 1500 : 300);
+    any_family<float>(g, thorough ? 3000 : 600); any_family<double>(g, thorough ? 3000 : 600); any_family<long double>(g, thorough ? 3000 : 600);
     vt::out().close();
     return 0;
 }
